@@ -7,7 +7,10 @@ import (
 	"fmt"
 	"os"
 	"testing"
+	"time"
 
+	"github.com/samsarahq/thunder/diff"
+	"github.com/samsarahq/thunder/federation"
 	"github.com/samsarahq/thunder/graphql"
 	"github.com/samsarahq/thunder/verifharness/gen"
 	"github.com/samsarahq/thunder/verifharness/vlib"
@@ -51,6 +54,69 @@ func TestCheck(t *testing.T) {
 		}
 		schemas = append(schemas, s)
 		names = append(names, m.String())
+	}
+	// two federation gateways over seeded partitions of the same fields
+	type gw struct {
+		name string
+		e    *federation.Executor
+	}
+	var gateways []gw
+	gctx, gcancel := context.WithCancel(context.Background())
+	defer gcancel()
+	for g := 0; g < 2; g++ {
+		gr := run.Rand("gateway", g)
+		ns := 2 + g
+		owner := map[string]int{}
+		for _, k := range sd.ModalFields() {
+			owner[k] = gr.Intn(ns)
+		}
+		execs := map[string]federation.ExecutorClient{}
+		for sidx := 0; sidx < ns; sidx++ {
+			sidx := sidx
+			name := fmt.Sprintf("s%d", sidx)
+			schema, err := gen.Build(sd, gen.Config{Service: name, Include: func(typ, field string) bool { return owner[typ+"."+field] == sidx }}, &gen.Env{}).Build()
+			if err != nil {
+				run.Broken("service schema build: " + err.Error())
+				return
+			}
+			srv, err := federation.NewServer(schema)
+			if err != nil {
+				run.Broken("federation server: " + err.Error())
+				return
+			}
+			execs[name] = &federation.DirectExecutorClient{Client: srv}
+		}
+		e, err := federation.NewExecutor(gctx, execs, &federation.SchemaSyncerConfig{SchemaSyncer: federation.NewIntrospectionSchemaSyncer(gctx, execs, nil)})
+		if err != nil {
+			run.Broken("gateway: " + err.Error())
+			return
+		}
+		gateways = append(gateways, gw{name: fmt.Sprintf("gateway-%d-services", ns), e: e})
+	}
+	viaGateway := func(e *federation.Executor, text string, vars map[string]interface{}, w *gen.World) (interface{}, error) {
+		q, err := graphql.Parse(text, vars)
+		if err != nil {
+			return nil, err
+		}
+		type res struct {
+			v   interface{}
+			err error
+		}
+		ch := make(chan res, 1)
+		go func() {
+			v, _, err := e.Execute(gen.WithUseBatch(gen.WithWorld(context.Background(), w), true), q, nil)
+			ch <- res{v, err}
+		}()
+		select {
+		case r := <-ch:
+			if r.err != nil {
+				return nil, r.err
+			}
+			j, _ := vlib.ToJSONForm(r.v)
+			return diff.StripKey(j), nil
+		case <-time.After(60 * time.Second):
+			return nil, fmt.Errorf("gateway request did not return within 60s")
+		}
 	}
 	n := run.N(6000, 200000)
 	run.Each(n, 8, func(i int) {
@@ -119,6 +185,31 @@ func TestCheck(t *testing.T) {
 				wit["got"] = vlib.Trunc(g, 2500)
 				wit["want"] = vlib.Trunc(wnt, 2500)
 				run.Violation(i, "", wit)
+			}
+		}
+		// the same through the federation gateway (every 3rd case)
+		if i%3 == 0 {
+			for _, g := range gateways {
+				wit := map[string]interface{}{"annotated": text, "variables": vars, "pruned": ptext, "pruned_variables": pvars, "config": g.name,
+					"world": map[string]interface{}{"seed": w.Seed, "n": w.N, "m": w.M}}
+				want, perr := viaGateway(g.e, ptext, pvars, w)
+				if perr != nil {
+					run.Inconclusive(fmt.Sprintf("case %d: pruned (directive-free) query failed through %s: %v", i, g.name, vlib.Trunc(perr.Error(), 200)))
+					continue
+				}
+				got, err := viaGateway(g.e, text, vars, w)
+				run.Count("gateway_comparisons", 1)
+				if err != nil {
+					wit["what"] = "annotated query failed through the gateway while the pruned query succeeds"
+					wit["error"] = vlib.Trunc(err.Error(), 600)
+					run.Violation(i, "", wit)
+					continue
+				}
+				if a, b := vlib.Canon(got), vlib.Canon(want); a != b {
+					wit["what"] = "through the gateway the annotated query result differs from the pruned query result"
+					wit["got"], wit["want"] = vlib.Trunc(a, 2500), vlib.Trunc(b, 2500)
+					run.Violation(i, "", wit)
+				}
 			}
 		}
 	})
